@@ -22,84 +22,84 @@ PROFILES = [
 
 PROPS = {
     "C01": dict(
-        family="eco",
+        family="eco", edge=["credits_q", "market_e", "basket_e"],
         mc=[("credits_q", 120), ("market_q", 300)], mc_t=[("credits_t", 600), ("market_t", 1800)],
         inv=["C01_Conservation", "C01_NoOrphans", "C01_NonNegative"],
         step=[],
         tinv=["T_C01_WellFormed", "T_C01_ChainInvariantAgrees"],
     ),
     "C02": dict(
-        family="eco",
+        family="eco", edge=["credits_q", "market_e"],
         mc=[("credits_q", 120), ("market_q", 300)], mc_t=[("credits_t", 600), ("market_t", 1800)],
         inv=["C02_Accounting"],
         step=["C02_OnlyIssuers", "C02_SealedFrozen"],
         tinv=[],
     ),
     "C03": dict(
-        family="eco",
+        family="eco", edge=["credits_q", "market_e", "basket_e"],
         mc=[("credits_q", 120), ("market_q", 300)], mc_t=[("credits_t", 600), ("market_t", 1800)],
         inv=[],
         step=["C03_Credits", "C03_Coins", "C03_Block"],
         tinv=[],
     ),
     "C05": dict(
-        family="eco",
+        family="eco", edge=["basket_e"],
         mc=[("basket_q", 600)], mc_t=[("basket_t", 1500)],
         inv=["C05_Backed"],
         step=["C05_PutMints", "C05_TakeBurns", "C05_OnlyPutTake"],
         tinv=["T_C05_ChainInvariantAgrees"],
     ),
     "C06": dict(
-        family="eco",
+        family="eco", edge=["market_e"],
         mc=[("market_q", 300)], mc_t=[("market_t", 1800)],
         inv=["C06_Escrow", "C06_OrderWellFormed"],
         step=["C06_DenomAllowedAtWrite"],
         tinv=["T_C06_OrderQuantitiesWellFormed"],
     ),
     "C07": dict(
-        family="eco",
+        family="eco", edge=["market_e", "params_e"],
         mc=[("market_q", 300)], mc_t=[("market_t", 1800), ("params_t", 900)],
         inv=[],
         step=["C07_Orders", "C07_Credits", "C07_Coins", "C07_NoOtherCoins"],
         tinv=[],
     ),
     "C11": dict(
-        family="eco",
+        family="eco", edge=["basket_e"],
         mc=[("basket_q", 600)], mc_t=[("basket_t", 1500)],
         inv=[],
         step=["C11_PutOnlyIf", "C11_PutIf", "C11_OldestFirst", "C11_AutoRetire"],
         tinv=[],
     ),
     "C12": dict(
-        family="eco",
+        family="eco", edge=["market_e"],
         mc=[("market_q", 300)], mc_t=[("market_t", 1800)],
         inv=["C12_NoneExpired"],
         step=["C12_Expiry", "C12_NoBuyExpired", "C12_ExpirationAsRequested"],
         tinv=["T_C12_BlockNeverFails"],
     ),
     "C08": dict(
-        family="eco",
+        family="eco", edge=["roles_q", "allow_q", "market_e"],
         mc=[("roles_q", 120), ("allow_q", 60), ("market_q", 300)], mc_t=[("roles_t", 600), ("allow_q", 60), ("market_q", 600)],
         inv=[],
         step=["C08_Authorised", "C08_Footprint", "C08_SealedStaysSealed"],
         tinv=[],
     ),
     "C13": dict(
-        family="eco",
+        family="eco", edge=["bridge_q"],
         mc=[("bridge_q", 200)], mc_t=[("bridge_t", 900)],
         inv=["C13_AtMostOnce", "C13_ContractsUnique"],
         step=["C13_AllowedSource", "C13_BindingPermanent", "C13_ReceiveIntoBound", "C13_BridgeOut"],
         tinv=[],
     ),
     "C14": dict(
-        family="eco",
+        family="eco", edge=["roles_q", "allow_q", "credits_q"],
         mc=[("roles_q", 120), ("allow_q", 60), ("bridge_q", 200), ("credits_q", 120)], mc_t=[("roles_t", 600), ("allow_q", 60), ("bridge_t", 900), ("credits_t", 600)],
         inv=["C14_Unique", "C14_References", "C14_Format"],
         step=["C14_Consecutive"],
         tinv=[],
     ),
     "C18": dict(
-        family="eco",
+        family="eco", edge=["params_e", "zerofee_q"],
         mc=[("params_q", 300), ("zerofee_q", 60)], mc_t=[("params_t", 900), ("zerofee_q", 60)],
         inv=[],
         step=["C18_FeeExact", "C18_NoFeatureDisabled"],
@@ -151,7 +151,7 @@ PROPS = {
         ],
     ),
     "C04": dict(
-        family="eco",
+        family="eco", edge=["credits_q", "market_e", "basket_e"],
         mc=[("credits_q", 120), ("market_q", 300)], mc_t=[("credits_t", 600), ("market_t", 1800)],
         inv=[],
         step=["C04_Permanence"],
